@@ -106,8 +106,11 @@ def interfaces(B):
     return [k + 0.5 + SHIFT[0] for k in range(B)]
 
 
-def mk_system(x, t=0, config=("init", 0), vel_rev=False):
+def mk_system(x, t=0, config=("init", 0), vel_rev=False, gdt=None):
     s = System()
+    # direction of hidden time in which the engine generated this frame (the sign of the velocity
+    # stored in the 'file'); together with vel_rev it gives the frame's velocity along a path
+    s.gdt = gdt if gdt is not None else (-1 if vel_rev else 1)
     s.order = [float(x) + SHIFT[0]]
     s.config = config
     s.vel_rev = vel_rev
@@ -168,6 +171,7 @@ class MemLatticeEngine(EngineBase):
         pp = system.copy()
         pp.config = (name, 0)
         pp.vel_rev = reverse
+        pp.gdt = dt  # the start configuration is written with the velocities of the integration direction
         # like the real engines: the caller's system now points to the start conf
         system.set_pos((name + "_conf", 0))
         system.vel_rev = reverse
